@@ -3120,6 +3120,42 @@ def _rule8(ctx, rep):
                 r.check(not probs, f'{q}:keeps-nothing', where(f), 'no state that outlives the call', f'{q}: ' + '; '.join(probs) + ': the catalogue is not read again by the next search')
 
 
+def _rule9(ctx, rep):
+    """a name constraint matches whole names (added after seeded change C17-10: shelve search._subset tested
+    `key.partition('___version:')[0].endswith(name)`, so "data" also selected "metadata" and "1214" selected "GJ 1214")"""
+    prog = ctx.prog
+    f = prog.nfunc('dawgie.db.shelve.search._subset')
+    rep.analysed(f)
+    with rep.rule(
+        'R-C17-9',
+        'the shelve search resolves a name to table ids by equality of the dissected name field (dissect(key)[1] == name): no prefix / suffix / substring test on the key text',
+        floor=1,
+        breaks='a constraint on one name also selects every stored name that merely ends (or starts) with it: find returns extra entries, total is inflated and facet lists names that do not satisfy the constraints',
+    ) as r:
+        name = f.params()[1] if len(f.params()) > 1 else None
+        if name is None:
+            raise AnalysisError('db.shelve.search._subset no longer takes (table, name)')
+        r.instance()
+        good, bad = [], []
+        for n in ast.walk(f.node):
+            if isinstance(n, ast.Compare) and len(n.ops) == 1:
+                sides = [n.left, n.comparators[0]]
+                mentions = [any(isinstance(x, ast.Name) and x.id in (name, 'n') for x in ast.walk(sd)) for sd in sides]
+                if any(mentions):
+                    other = sides[1] if mentions[0] else sides[0]
+                    is_field = isinstance(other, ast.Subscript) and isinstance(other.value, ast.Call) and (call_name(other.value) or '').endswith('dissect') and isinstance(other.slice, ast.Constant) and other.slice.value == 1
+                    (good if isinstance(n.ops[0], ast.Eq) and is_field else bad).append(n)
+            if isinstance(n, ast.Call) and isinstance(n.func, ast.Attribute) and n.func.attr in ('endswith', 'startswith', 'find', 'index', 'count', 'search', 'match') and any(isinstance(x, ast.Name) and x.id in (name, 'n') for a in n.args for x in ast.walk(a)):
+                bad.append(n)
+        r.check(
+            bool(good) and not bad,
+            f'{f.qname}:whole-name',
+            where(f, bad[0] if bad else None),
+            'dissect(key)[1] == name',
+            f'{f.qname} does not select by equality of the dissected name: {norm(bad[0])[:70] if bad else "no comparison with dissect(key)[1] found"}',
+        )
+
+
 def check(ctx):
     rep = Report(
         PID,
@@ -3157,6 +3193,7 @@ def check(ctx):
     _rule6(ctx, rep)
     _rule7(ctx, rep)
     _rule8(ctx, rep)
+    _rule9(ctx, rep)
     return rep
 
 
@@ -3166,6 +3203,7 @@ _AR, _AC = 'SearchImplementation.__add_runids', 'SearchImplementation.__args_n_c
 
 # ``old`` texts that only exist after pending fixes C17-1..4 are skipped automatically on the unrepaired tree
 VARIANTS = [
+    V('shelve search matches names by suffix', 'B', 'db/shelve/search.py', '_subset', 'dissect(t[0])[1] == n', 'dissect(t[0])[1].endswith(n)', 'R-C17-9'),
     V('shelve search memoises its key selection', 'B', 'db/shelve/search.py', None, 'def _subset(', 'import functools\n\n\n@functools.lru_cache(maxsize=64)\ndef _subset(', 'R-C17-8'),
     V('search end point sorts the page as text', 'B', 'fe/api/database.py', 'search', 'return build_return_object(results._asdict())', 'results = results._replace(items=sorted(results.items, key=str.casefold))\n    return build_return_object(results._asdict())', 'R-C17-7'),
     V('post range uses BETWEEN', 'B', 'db/post/search.py', None, "_RANGE = 'run_ID >= %s and run_ID < %s'", "_RANGE = 'run_ID BETWEEN %s AND %s'", 'R-C17-6'),
